@@ -404,6 +404,27 @@ func DynBytes(rt *rapid.T, label string) []byte {
 	return gen.Bytes(rt, label, n)
 }
 
+// FixedScaled draws the scaled integer (value * 10^N) of a fixed-point type: any in-range
+// integer with boundary bias, or an integral value (multiple of 10^N, so that it can also be
+// given as a Go integer), or a dyadic fraction k/2^j with j <= N (exactly representable as a
+// binary float, so that it can also be given as float64 / *big.Float).
+func FixedScaled(rt *rapid.T, label string, t *abiref.Type) *big.Int {
+	lo, hi := t.Range()
+	mode := rapid.IntRange(0, 9).Draw(rt, label+".fpmode")
+	unit := abiref.Pow10(t.N) // scaled value of 1
+	if mode >= 8 {
+		j := rapid.IntRange(1, 12).Draw(rt, label+".j")
+		if j > t.N {
+			j = t.N
+		}
+		unit = new(big.Int).Quo(unit, pow2(j)) // 10^N / 2^j = 5^j * 10^(N-j), exact
+	} else if mode < 6 {
+		return IntInRange(rt, label, lo, hi)
+	}
+	klo, khi := new(big.Int).Quo(lo, unit), new(big.Int).Quo(hi, unit) // Quo truncates towards zero: stays in range
+	return new(big.Int).Mul(IntInRange(rt, label+".k", klo, khi), unit)
+}
+
 // Value draws a value of t.
 func Value(rt *rapid.T, label string, t *abiref.Type) abiref.Value {
 	b := 160
@@ -413,9 +434,11 @@ func Value(rt *rapid.T, label string, t *abiref.Type) abiref.Value {
 func genValue(rt *rapid.T, label string, t *abiref.Type, budget *int) abiref.Value {
 	*budget--
 	switch t.Kind {
-	case abiref.Uint, abiref.Int, abiref.Fixed, abiref.Ufixed:
+	case abiref.Uint, abiref.Int:
 		lo, hi := t.Range()
 		return abiref.IntV(IntInRange(rt, label, lo, hi))
+	case abiref.Fixed, abiref.Ufixed:
+		return abiref.IntV(FixedScaled(rt, label, t))
 	case abiref.Bool:
 		return abiref.BoolV(rapid.Bool().Draw(rt, label))
 	case abiref.Address:
